@@ -5,6 +5,7 @@ import MD.Model.Ident
 import MD.Model.Config
 import MD.Model.IsoFit
 import MD.Model.Decompose
+import MD.Model.PD
 /-! JSON-lines driver: one request per line on stdin, one response per line on stdout. -/
 open Lean MD
 
@@ -104,6 +105,62 @@ open MD.Cfg in
 def outStr : Out → String
   | .ok => "ok" | .valueError => "ValueError" | .moduleNotFound => "ModuleNotFoundError" | .userExc => "UserExc"
 
+def cellOfJson? (j : Json) : Option (Cell Rat) :=
+  match j with
+  | .null => some .null
+  | .str "inf" => some .posInf
+  | .str "-inf" => some .negInf
+  | v => (ratOfJson? v).map Cell.fin
+
+def cellToJson : Cell Rat → Json
+  | .null => .null
+  | .posInf => .str "inf"
+  | .negInf => .str "-inf"
+  | .fin v => ratToJson v
+
+def getCells (j : Json) (k : String) : Except String (List (Cell Rat)) :=
+  match j.getObjVal? k with
+  | .ok (.arr a) => match a.toList.mapM cellOfJson? with
+    | some l => .ok l
+    | none => .error s!"bad cell in {k}"
+  | _ => .error s!"missing {k}"
+
+def getOptStrs (j : Json) (k : String) : Except String (List (Option String)) :=
+  match j.getObjVal? k with
+  | .ok (.arr a) => a.toList.mapM (fun v => match v with
+      | .null => .ok none
+      | .str s => .ok (some s)
+      | _ => .error "bad string cell")
+  | _ => .error s!"missing {k}"
+
+def getNat (j : Json) (k : String) : Except String Nat :=
+  match j.getObjVal? k with
+  | .ok (.num n) => if n.exponent = 0 ∧ 0 ≤ n.mantissa then .ok n.mantissa.toNat else .error s!"bad nat {k}"
+  | _ => .error s!"missing nat {k}"
+
+def edgesJson (e : Option (Cell Rat × Cell Rat)) : Json :=
+  match e with
+  | none => .null
+  | some (a, b) => .arr #[cellToJson a, cellToJson b]
+
+def keyJson : Key → Json
+  | .null => .null
+  | .num i => .num ⟨(i : Int), 0⟩
+  | .str s => .str s
+
+def methodOf (s : String) : BinMethod :=
+  match s with
+  | "quantile" => .quantile
+  | "uniform" => .uniform
+  | _ => .numpy
+
+def getRatMatrix (j : Json) (k : String) : Except String (List (List Rat)) :=
+  match j.getObjVal? k with
+  | .ok (.arr a) => a.toList.mapM (fun c => match ratsOfJson? c with
+      | some l => .ok l
+      | none => .error "bad matrix row")
+  | _ => .error s!"missing {k}"
+
 def blocksJson (bs : List (Blk Rat)) : Json :=
   Json.mkObj [("x", ratsToJson (expand bs)), ("r", natsToJson (bounds bs))]
 
@@ -189,6 +246,73 @@ def handle (j : Json) : Except String Json := do
       | .error e => pure (errJson e)
       | .ok rows => pure (Json.mkObj [("rows", .arr (rows.map (fun r =>
           floatsToJson [r.mcb, r.dsc, r.unc, r.score])).toArray)])
+  | "bin" =>
+    let kind ← getStr j "kind"
+    let nBins ← getNat j "n_bins"
+    if kind = "num" then
+      let feature ← getCells j "feature"
+      let given ← getRats j "given"
+      let m := methodOf (← getStr j "method")
+      let b := binNumeric m nBins given feature
+      pure (Json.mkObj [("n_bins", .num ⟨(b.nBins : Int), 0⟩),
+        ("bins", .arr (b.bins.map (fun o => match o with | none => Json.null | some i => .num ⟨(i : Int), 0⟩)).toArray),
+        ("edges", .arr (b.edges.map edgesJson).toArray)])
+    else
+      let feature ← getOptStrs j "feature"
+      let enumOrder : Option (List String) := match j.getObjVal? "enum" with
+        | .ok (.arr a) => some (a.toList.filterMap (fun v => match v with | .str s => some s | _ => none))
+        | _ => none
+      let b := binString enumOrder nBins feature
+      pure (Json.mkObj [("n_bins", .num ⟨(b.nBins : Int), 0⟩),
+        ("bins", .arr (b.bins.map (fun o => match o with | none => Json.null | some s => Json.str s)).toArray),
+        ("pooled", match b.pooled with | none => .null | some s => .str s)])
+  | "table" =>
+    let kind ← getStr j "kind"
+    let cols ← getRatMatrix j "cols"
+    let w ← getRats j "w"
+    let rowJson (r : OutRow Rat) : Json := Json.mkObj [("key", keyJson r.key), ("feat", cellToJson r.featMean),
+      ("count", .num ⟨(r.count : Int), 0⟩), ("weights", ratToJson r.weights),
+      ("stats", .arr (r.stats.map (fun s => Json.arr #[ratToJson s.mean, ratToJson s.stderr2])).toArray),
+      ("fvar", match r.featVar with | none => .null | some v => ratToJson v), ("edges", edgesJson r.edges)]
+    if kind = "none" then
+      pure (Json.mkObj [("rows", .arr #[rowJson (ungroupedRow cols w)]), ("n_bins", .num ⟨0, 0⟩)])
+    else
+      let nBins ← getNat j "n_bins"
+      if kind = "num" then
+        let feature ← getCells j "feature"
+        let given ← getRats j "given"
+        let m := methodOf (← getStr j "method")
+        let b := binNumeric m nBins given feature
+        let keys := b.bins.map (fun o => match o with | none => Key.null | some i => Key.num i)
+        let rows := groupedTable keys feature b.edges cols w b.nBins none none
+        pure (Json.mkObj [("rows", .arr (rows.map rowJson).toArray), ("n_bins", .num ⟨(b.nBins : Int), 0⟩)])
+      else
+        let feature ← getOptStrs j "feature"
+        let enumOrder : Option (List String) := match j.getObjVal? "enum" with
+          | .ok (.arr a) => some (a.toList.filterMap (fun v => match v with | .str s => some s | _ => none))
+          | _ => none
+        let b := binString enumOrder nBins feature
+        let keys := b.bins.map (fun o => match o with | none => Key.null | some s => Key.str s)
+        let rows := groupedTable keys (feature.map (fun _ => Cell.null)) (feature.map (fun _ => none)) cols w b.nBins enumOrder b.pooled
+        pure (Json.mkObj [("rows", .arr (rows.map rowJson).toArray), ("n_bins", .num ⟨(b.nBins : Int), 0⟩),
+          ("pooled", match b.pooled with | none => .null | some s => .str s)])
+  | "pd" =>
+    let X ← getRatMatrix j "X"
+    let jj ← getNat j "j"
+    let k ← getNat j "k"
+    let a ← getRat j "a"
+    let b ← getRat j "b"
+    let c ← getRat j "c"
+    let grid ← getRats j "grid"
+    let w ← getOptRats j "w"
+    let sub : Option (List Nat) := match j.getObjVal? "sub" with
+      | .ok (.arr arr) => some (arr.toList.filterMap (fun v => match v with
+          | .num n => some n.mantissa.toNat | _ => none))
+      | _ => none
+    pure (Json.mkObj [("pd", ratsToJson (partialDependence (predFamily a b c jj k) X jj grid w sub))])
+  | "format_integer" =>
+    let n ← getNat j "n"
+    pure (Json.mkObj [("s", .str (formatInteger n))])
   | "score" =>
     -- floats travel as bit patterns
     let kind ← getStr j "kind"
